@@ -22,7 +22,24 @@ import hl7apy
 ALPHABET = '0123456789.+- A_\nE'
 STD = {'FIELD': '|', 'COMPONENT': '^', 'SUBCOMPONENT': '&', 'REPETITION': '~', 'ESCAPE': '\\'}
 NMAX = {'DT': 9, 'TM': 17, 'DTM': 26, 'SI': 7, 'NM': 18}
+CROSS_NMAX = 26      # obligation queries up to this length are decided a second time (cvc5 / z3 4.8.12) in the thorough tier
 VERSION = {'DT': '2.5', 'TM': '2.5', 'DTM': '2.5', 'SI': '2.5', 'NM': '2.5'}
+NMAX_OTHER = 8 if THOROUGH else 6      # E2 length bound for the versions other than VERSION[D] (datatype_factory dispatches per version)
+
+
+def all_versions():
+    import hl7apy
+    return sorted(hl7apy.SUPPORTED_LIBRARIES)
+
+
+def has_datatype(D, version):
+    import hl7apy
+    return D in hl7apy.load_library(version).get_base_datatypes()
+
+
+def version_pairs():
+    """(datatype, version) for every version in which the datatype is a base datatype"""
+    return [(D, v) for D in ('DT', 'TM', 'DTM', 'SI', 'NM') for v in all_versions() if has_datatype(D, v)]
 YEAR_MIN = 1000       # the property quantifies over years 1000-9999 (years below 1000: recorded finding on rendering)
 
 
@@ -125,12 +142,14 @@ def g_nm(s):
 
 # ---- one E2 task: (datatype, length) ------------------------------------------------------------------------------------------
 def _e2_task(args):
-    D, n, exclude = args
+    D, n, exclude = args[:3]
+    version = args[3] if len(args) > 3 else VERSION[D]
     import z3
-    from pysym import loader, shims, Unsupported, SymStr, And, Or, Not
+    from pysym import loader, shims, Unsupported, SymStr, And, Or, Not, cross
     from pysym.pstr import PStr, Explorer, SymInt
     t0 = time.time()
-    res = {'D': D, 'n': n, 'paths': 0, 'queries': 0, 'solver_s': 0.0, 'cex': [], 'unknown': [], 'lenient_paths': 0}
+    res = {'D': D, 'n': n, 'version': version, 'paths': 0, 'queries': 0, 'solver_s': 0.0, 'cex': [], 'unknown': [], 'lenient_paths': 0}
+    res.update(cross.new_stats())
     try:
         mods = loader.load()
         factories = mods['hl7apy.factories']
@@ -138,7 +157,6 @@ def _e2_task(args):
         solver.set('timeout', 60000)
         s = PStr.fresh('s', n, ALPHABET, solver)
         G = grammar(D, s)
-        version = VERSION[D]
         if D in ('DT', 'DTM') and n >= 4:
             # years 0001-0999 are outside the property's quantifier (1000-9999): assumed away
             solver.add(z3.Not(z3.And(_z(_g_digits(s, 0, 4)), s.number(0, 4) < YEAR_MIN)))
@@ -156,6 +174,8 @@ def _e2_task(args):
             r = str(solver.check())
             res['solver_s'] += time.time() - q0
             res['queries'] += 1
+            if n <= CROSS_NMAX:
+                cross.decide(solver, r, res, '%s n=%d %s' % (D, n, name))
             if r == 'sat':
                 res['cex'].append({'ob': name, 's': s.concrete(solver.model())})
             elif r != 'unsat':
@@ -281,17 +301,21 @@ def _e2_values(tier, seed, nproc):
     nval, disagreements = validate_shims()
     if disagreements:
         return {'status': 'error', 'message': 'shim validation failed (%d of %d): %s' % (len(disagreements), nval, disagreements[:6])}
-    tasks = [(D, n, exclude) for D in TASK_TYPES for n in range(0, NMAX[D] + 1)]
+    tasks = [(D, n, exclude, VERSION[D]) for D in TASK_TYPES for n in range(0, NMAX[D] + 1)]
+    tasks += [(D, n, exclude, v) for (D, v) in version_pairs() if v != VERSION[D] for n in range(0, min(NMAX[D], NMAX_OTHER) + 1)]
     tasks.sort(key=lambda t: -t[1])
     with multiprocessing.get_context('fork').Pool(nproc) as pool:
         results = pool.map(_e2_task, tasks, chunksize=1)
     cex, inconclusive, queries, solver_s, paths, lenient = [], [], 0, 0.0, 0, 0
+    from pysym import cross
+    xs = cross.new_stats()
     for r in results:
+        cross.merge(xs, r)
         queries += r['queries']
         solver_s += r['solver_s']
         paths += r['paths']
         lenient += r['lenient_paths']
-        key = '%s n=%d' % (r['D'], r['n'])
+        key = '%s v%s n=%d' % (r['D'], r['version'], r['n'])
         if 'error' in r:
             return {'status': 'error', 'message': '%s: %s\n%s' % (key, r['error'], r.get('traceback', ''))}
         if 'unsupported' in r:
@@ -299,19 +323,25 @@ def _e2_values(tier, seed, nproc):
         for u in r['unknown']:
             inconclusive.append('%s: %s undecided' % (key, u))
         for c in r['cex']:
-            cex.append({'call': '_replay(%r, %r, %r)' % (c['ob'].split(':')[0], r['D'], c['s']), 'message': '%s %s' % (key, c['ob'])})
+            cex.append({'call': '_replay(%r, %r, %r, %r)' % (c['ob'].split(':')[0], r['D'], c['s'], r['version']), 'message': '%s %s' % (key, c['ob'])})
     seen, uniq = set(), []
     for c in cex:
         if c['call'] not in seen:
             seen.add(c['call'])
             uniq.append(c)
+    if xs['cross_disagree']:
+        return {'status': 'error', 'message': 'two solvers disagree: ' + '; '.join(xs['cross_disagree'][:5])}
     status = 'refuted' if uniq else ('unknown' if inconclusive else 'confirmed')
     return {'status': status, 'queries': queries, 'solver_s': round(solver_s, 2), 'paths': paths, 'confirmed_paths': paths,
             'pieces_total': len(tasks), 'pieces_confirmed': len(tasks) - len({c['message'].rsplit(' ', 1)[0] for c in uniq}) - len(inconclusive),
             'counterexamples': uniq[:60], 'inconclusive': inconclusive[:40],
-            'samples': [{'tasks': ['%s n<=%d' % (D, NMAX[D]) for D in TASK_TYPES], 'alphabet': ALPHABET, 'paths': paths,
+            'samples': [{'tasks': ['%s n<=%d (v%s), n<=%d in the other versions that define it' % (D, NMAX[D], VERSION[D], min(NMAX[D], NMAX_OTHER))
+                                   for D in TASK_TYPES], 'alphabet': ALPHABET, 'paths': paths,
                          'paths_through_lenient_library_behaviour': lenient, 'lenient_family_excluded': exclude,
-                         'shim_validation': '%d concrete (datatype, text, level) cases agree with the unmodified library' % nval}]}
+                         'shim_validation': '%d concrete (datatype, text, level) cases agree with the unmodified library' % nval,
+                         'second_solver': ('obligation queries with n<=%d decided again: %d same answer %r, %d not decided within %ds'
+                                           % (CROSS_NMAX, xs['cross_agree'], xs.get('cross_by', {}), xs['cross_undecided'], cross.TLIMIT_S))
+                         if cross.ENABLED else 'off (thorough tier only)'}]}
 
 
 # ---- shim validation: the re-executed kernels on CONCRETE strings vs. the unmodified library in a separate interpreter ----------
@@ -327,7 +357,7 @@ GRID = {
             '20200101 230', '2020\n', '2 20', '20200101123015.'],
     'SI': ['', '0', '1', '0001', '9999', '10000', '00001', '-1', '+5', ' 5', '5 ', '1_0', '1\n', 'a', '1.5', '12345'],
     'NM': ['', '0', '1', '-1', '+1', '1.5', '-0.5', '01', '007.50', '1.', '.5', '1E3', '1e3', 'NaN', 'Infinity', ' 1', '1 ', '1_0', '0.000001',
-           '0.0000001', '0.0000000', '1234567890123456', '12345678901234567', '123456789012345.6', '-123456789012345.6', 'abc', '1.2.3', '--1', '\n1'],
+           '0.0000001', '0.0000000', '0.00000012', '-0.0000001', '0.0000000000000001', '0.00000000000001', '1234567890123456', '12345678901234567', '123456789012345.6', '-123456789012345.6', 'abc', '1.2.3', '--1', '\n1'],
 }
 
 
@@ -446,10 +476,10 @@ def ref_valid(D, text):
     return date_ok(body[:8]) and time_ok(body[8:])
 
 
-def _accepts(D, text, level):
+def _accepts(D, text, level, version=None):
     from hl7apy.factories import datatype_factory
     try:
-        return datatype_factory(D, text, VERSION[D], level), None
+        return datatype_factory(D, text, version or VERSION[D], level), None
     except Exception as e:
         return None, e
 
@@ -470,11 +500,11 @@ def _same_number(a, b):
         return False
 
 
-def _replay(ob, D, text):
+def _replay(ob, D, text, version=None):
     """True iff the obligation holds for this concrete text on the unmodified library"""
     numeric = D in MAXLEN
     if ob in ('A1', 'A2', 'R1', 'X', 'M1'):
-        obj, exc = _accepts(D, text, 1)
+        obj, exc = _accepts(D, text, 1, version)
         if ob == 'A1':
             return obj is None or ref_valid(D, text)
         if ob == 'A2':
@@ -492,7 +522,7 @@ def _replay(ob, D, text):
             return text == '' or _same_number(out, text)
         return out == text
     if ob == 'T1':
-        obj, exc = _accepts(D, text, 2)
+        obj, exc = _accepts(D, text, 2, version)
         if exc is not None:
             return False
         out = obj.to_er7(dict(STD))
@@ -507,18 +537,18 @@ def _replay(ob, D, text):
 FAMILY = {('DT', '202011 5'), ('DT', '2020 1 1'),
           ('SI', '00001'), ('SI', '-1'), ('SI', '+5'), ('SI', ' 5'), ('SI', '5 '), ('SI', '1_0'), ('SI', '1\n'),
           ('NM', '1.'), ('NM', '.5'), ('NM', '1E3'), ('NM', '1e3'), ('NM', 'NaN'), ('NM', 'Infinity'), ('NM', ' 1'), ('NM', '1 '), ('NM', '1_0'),
-          ('NM', '0.0000001'), ('NM', '0.0000000'), ('NM', '\n1')}
-GRID_ITEMS = [(D, t) for D in ('DT', 'TM', 'DTM', 'SI', 'NM') for t in GRID[D]]
+          ('NM', '\n1')}
+GRID_ITEMS = [(D, t, v) for (D, v) in version_pairs() for t in GRID[D]]
 NGRID = len(GRID_ITEMS)
 
 
 def grid_ok(i, trace=None):
-    D, t = GRID_ITEMS[i]
+    D, t, v = GRID_ITEMS[i]
     if (D, t) in FAMILY and known_open('C13-library-leniency'):
         return True
-    bad = [ob for ob in ('A1', 'A2', 'R1', 'T1', 'X', 'M1') if not _replay(ob, D, t)]
+    bad = [ob for ob in ('A1', 'A2', 'R1', 'T1', 'X', 'M1') if not _replay(ob, D, t, v)]
     if trace is not None:
-        trace.append(explain('_replay(%r, %r, %r)' % ('grid', D, t)) + ' ; failing obligations: %r' % bad)
+        trace.append(explain('_replay(%r, %r, %r, %r)' % ('grid', D, t, v)) + ' ; failing obligations: %r' % bad)
     return not bad
 
 
@@ -560,9 +590,10 @@ def explain(call):
     if m.group(1) == '_witness_leniency':
         return '\n'.join(explain('_replay(%r, %r, %r)' % ('A1', D, t)) for (D, t) in sorted(FAMILY))
     if m.group(1) == '_replay':
-        ob, D, text = a
-        o1, e1 = _accepts(D, text, 1)
-        o2, e2 = _accepts(D, text, 2)
+        ob, D, text = a[:3]
+        version = a[3] if len(a) > 3 else VERSION[D]
+        o1, e1 = _accepts(D, text, 1, version)
+        o2, e2 = _accepts(D, text, 2, version)
         return '%s %s %r: HL7-valid=%s ; STRICT -> %s ; TOLERANT -> %s' % (
             ob, D, text, ref_valid(D, text),
             ('accepted, to_er7()=%r' % o1.to_er7(dict(STD))) if o1 is not None else 'raised %s: %s' % (type(e1).__name__, e1),
@@ -587,10 +618,11 @@ SPEC = {
     'stubs': ['re.search (offset regex)', 'datetime.strptime / strftime', 'str.format on literals', 'len'],
     'obligations': [
         {'name': 'G.grid', 'fn': '_ob_grid', 'parts': 8, 'cond_timeout': 600, 'path_timeout': 60,
-         'bound': 'the %d boundary literals of GRID (hour 24, minute/second 60, +1400/+1401, -1200/-1201, Feb 29, 4 vs 5 fraction digits, '
+         'bound': 'the %d (boundary literal, version) pairs of GRID x every version that has the datatype (hour 24, minute/second 60, +1400/+1401, -1200/-1201, Feb 29, 4 vs 5 fraction digits, '
                   'repeated offset text, signs, blanks, underscores, exponents, over-long values) through the unmodified library: A1, A2, '
                   'R1, T1, M1' % NGRID},
         {'name': 'E2.values', 'engine': 'E2', 'worker': '_e2_values', 'timeout': 7200,
-         'bound': 'A1, A2, R1, T1 for %s, every string of each length up to %r over the alphabet' % (TASK_TYPES, {d: NMAX[d] for d in TASK_TYPES})},
+         'bound': 'A1, A2, R1, T1 for %s, every string of each length up to %r over the alphabet in version %s, and up to length %d in every '
+                  'other version that defines the datatype' % (TASK_TYPES, {d: NMAX[d] for d in TASK_TYPES}, VERSION['DT'], NMAX_OTHER)},
     ],
 }
